@@ -615,6 +615,12 @@ func TestC14(t *testing.T) {
 // corpus: minimised histories that matter (run first on every check)
 func c14Corpus() []c14Hist {
 	return []c14Hist{
+		{ // claim at half time, cancel part of the rest (the reduced schedule now LAGS behind what was released), one block later ask for more
+			// than the unreleased remainder (+1, then twice as much: both must be refused), then a cancel of exactly the remainder, claims
+			N: 100, Max: 10, F: 90, Eden: []string{"100000", "0", "0"}, Elys: []string{"0", "0", "0"}, Final: true,
+			Ops: []c14Op{{Op: "vest", Acct: 0, Amt: "rel:5"}, {Op: "blocks", N: 50}, {Op: "claim", Acct: 0}, {Op: "cancel", Acct: 0, Amt: "rel:3"}, {Op: "blocks", N: 1},
+				{Op: "cancel", Acct: 0, Amt: "rel:6"}, {Op: "cancel", Acct: 0, Amt: "rel:7"}, {Op: "blocks", N: 1}, {Op: "claim", Acct: 0}, {Op: "cancel", Acct: 0, Amt: "rel:5"}, {Op: "claim", Acct: 0}},
+		},
 		{ // claim - cancel - claim: the defect repaired by the fix: commit (negative coin panic)
 			N: 100, Max: 10, F: 90, Eden: []string{"1000", "0", "0"}, Elys: []string{"0", "0", "0"}, Final: true,
 			Ops: []c14Op{{Op: "vest", Acct: 0, Amt: "rel:4"}, {Op: "blocks", N: 50}, {Op: "claim", Acct: 0},
